@@ -834,8 +834,16 @@ func registers(c *core.Ctx, h *vdb.Handle, G int, desc string) {
 // parsing a schema (cold cache) into one family: the known finding KF-C07-1. Any other
 // race keeps its call-site pair as signature and is reported.
 func classifyRace(report, sig string) string {
-	if strings.Contains(report, "gorm.io/gorm/schema.ParseWithSpecialTableName()") || strings.Contains(report, "gorm.io/gorm/schema.getOrParse()") {
-		return "race:schema-cold-parse"
+	// only the stacks of the two conflicting accesses count (not where the goroutines were created)
+	for _, blk := range strings.Split(report, "\n\n") {
+		head := strings.TrimSpace(blk)
+		if !(strings.HasPrefix(head, "WARNING: DATA RACE") || strings.HasPrefix(head, "Write at") || strings.HasPrefix(head, "Read at") ||
+			strings.HasPrefix(head, "Previous write") || strings.HasPrefix(head, "Previous read")) {
+			continue
+		}
+		if strings.Contains(blk, "gorm.io/gorm/schema.ParseWithSpecialTableName()") || strings.Contains(blk, "gorm.io/gorm/schema.getOrParse()") {
+			return "race:schema-cold-parse"
+		}
 	}
 	return sig
 }
